@@ -286,8 +286,11 @@ pub fn write_float_nonscientific<const FORMAT: u128>(
     let decimal_point = options.decimal_point();
 
     // Round and truncate the number of significant digits.
+    // NOTE: leading zeros, as in `0.00121`, are not significant digits, so
+    // they don't count against the digit window.
     let mut start = integer_cursor;
-    let end = fraction_cursor.min(start + MAX_DIGIT_LENGTH + 1);
+    let zeros = ltrim_char_count(&buffer[start..fraction_cursor], b'0');
+    let end = fraction_cursor.min(start + zeros + MAX_DIGIT_LENGTH + 1);
     let (mut digit_count, carried) =
         truncate_and_round(buffer, start, end, format.radix(), options);
 
